@@ -6,7 +6,7 @@
    [pmode], the operations of the yield (or of failing the snapshot) in progress are its program.
    Ghost fields (veto, owed, tok, hist) never influence which events are accepted (cancelling only names
    the future in HCancelRet).  Poll future j is built on delegate future j (both are created under the gate).
-   Environment: the delegate executor and the completion of its futures, the poll function (which
+   Environment: the delegate executor and the completion or cancellation (EEnvCancel) of its futures, the poll function (which
    descriptors it yields for, what it returns / raises), the cancel function, the clock.
    Racy unlocked reads (PollFuture._delegate, PollExecutor._poll_descriptors in _run_cancel_fn) are
    evaluated at the moment the preceding visible operation of that thread took effect ([norm]).
@@ -185,7 +185,10 @@ Inductive ev :=
 | EWWoke (kind : nat)                     (* 0 notified, 1 timeout *)
 | EWClear
 | EEnvRun (t d : nat) (pre : fstate)
-| EEnvFinish (t d : nat) (pre : fstate) (o : outcome).
+| EEnvFinish (t d : nat) (pre : fstate) (o : outcome)
+| EEnvCancel (t d : nat) (pre : fstate).  (* someone else (the environment) calls cancel() on delegate d; on the
+                                             Pending -> Cancelled transition the done-callbacks run inline in t:
+                                             PollFuture._delegate_resolved, which returns silently *)
 
 Fixpoint nats_eqb (a b : list nat) : bool :=
   match a, b with
@@ -460,6 +463,15 @@ Definition step3 (s : st) (e : ev) : option st :=
         | None => Some s
         end
       else None
+  | EEnvCancel t d pre =>
+      if client s t && (d <? nfut s) && fstate_eqb pre (ds s d) then
+        let '(n, _) := f_cancel pre in
+        if f_cancel_fires pre then
+          Some (set_prog (s <| ds := upd (ds s) d n |> <| dcb := upd (dcb s) d false |>
+                            <| tok := if dcb s d then upd (tok s) d (Some t) else tok s |>) t
+                         ((if dcb s d then resolved_prog d else []) ++ [IRetEnv d]))
+        else Some (s <| ds := upd (ds s) d n |>)
+      else None
   | _ => None
   end.
 
@@ -512,6 +524,7 @@ Definition decode (l : list Z) : option (Z * ev) :=
       | 23, [] => Some (ts, EWClear)
       | 24, [t; d; p] => match fstate_of p with Some p => Some (ts, EEnvRun (n t) (n d) p) | None => None end
       | 25, [t; d; p; k; v] => match fstate_of p with Some p => Some (ts, EEnvFinish (n t) (n d) p (oc k v)) | None => None end
+      | 26, [t; d; p] => match fstate_of p with Some p => Some (ts, EEnvCancel (n t) (n d) p) | None => None end
       | _, _ => None
       end
   | _ => None
